@@ -31,10 +31,10 @@ AllUnits == <<
   UU(0, 0, {<<"ma", 1>>}), UU(0, 0, {<<"mb", 1>>}), UU(3, 0, {<<"ma", 1>>}), UU(0, 10, {<<"mb", 1>>}),
   UU(0, 0, {<<"sa", 1>>}), UU(0, 0, {<<"ma", 1>>, <<"sa", -1>>}), UU(0, 0, {<<"mb", 1>>, <<"sb", -1>>}),
   UU(0, 0, {<<"gb", 1>>}), UU(0, 0, {<<"fa", 1>>}), UU(0, 0, {<<"gb", 1>>, <<"ma", 1>>, <<"sa", -2>>}),
-  UU(0, 0, {}), UU(0, 0, {<<"ma", 2>>}), UU(3, 0, {<<"sa", -1>>}), UU(0, 0, {<<"md", 2>>}), UU(0, 3, {<<"ga", 1>>}),
+  UU(0, 0, {}), UU(0, 0, {<<"ma", 2>>}), UU(3, 0, {<<"sa", -1>>}), UU(0, 0, {<<"md", 2>>}), UU(3, 0, {}),       \* (kilo * One: a dimensionless unit that still carries a prefix)
   \* thorough only from here
   UU(0, 0, {<<"mc", 1>>}), UU(0, 0, {<<"sb", 1>>}), UU(3, 0, {<<"mc", 1>>, <<"sb", -1>>}), UU(0, 0, {<<"ga", 1>>}),
-  UU(0, 0, {<<"mb", 2>>}), UU(3, 0, {}), UU(0, 0, {<<"ma", 1>>, <<"mb", -1>>}), UU(-3, 0, {<<"ga", 1>>}),
+  UU(0, 0, {<<"mb", 2>>}), UU(0, 3, {<<"ga", 1>>}), UU(0, 0, {<<"ma", 1>>, <<"mb", -1>>}), UU(-3, 0, {<<"ga", 1>>}),
   UU(3, 0, {<<"ma", 2>>}), UU(0, 10, {<<"ma", 1>>, <<"sa", -1>>}) >>
 NU == IF Size = 1 THEN 15 ELSE Len(AllUnits)
 MCUnits == [t \in 1..NU |-> AllUnits[t]]
